@@ -2,7 +2,8 @@
 """apply a builder's patch file to /repo as ONE commit (message = text before the first `diff --git`,
 or the given default for hook patches). Drops hunks that only add tests if --no-tests is given."""
 import subprocess, sys, re
-f = sys.argv[1]
+import os
+f = os.path.abspath(sys.argv[1])
 default = sys.argv[2] if len(sys.argv) > 2 else None
 t = open(f).read()
 i = t.index("diff --git")
